@@ -631,7 +631,6 @@ func onlyLenUses(info *types.Info, n ast.Node, o types.Object) bool {
 	return ok
 }
 
-
 // flagReduction recognises the body `flag = p(…); if [!]flag { break }` (the assignment may be the if's init statement).
 func flagReduction(info *types.Info, rs *ast.RangeStmt) bool {
 	var as *ast.AssignStmt
